@@ -28,7 +28,7 @@ EXPLANATION = ("log/exp round trips and the principal-value claim log(X) = phi*n
                "are resolved against the input's own angle; each entry is one z3 query")
 
 SO3R = ["SO3Quat", "SO3Mrp", "SO3Dcm"]
-VARIANTS = {"Quat": ["+", "-"], "Mrp": ["inner", "shadow"], "Dcm": ["+"]}
+VARIANTS = {"Quat": ["+", "-"], "Mrp": ["inner", "shadow"], "Dcm": ["+", "-"]}
 ANGLE_GROUPS = ["SO3Quat", "SO3Mrp", "SO3Dcm", "SE3Quat", "SE3Mrp", "SE23Quat", "SE23Mrp"]
 ALL = ["SO2", "SE2", "R2", "R3"] + ANGLE_GROUPS
 
@@ -109,6 +109,16 @@ class LogExp(Stubbed):
             _, A, P = mc.calls[0]
             self.extra_sx = [P]
             return [X.log().param, A]
+        if self.gname == "SO3Dcm":
+            # DCM log goes through the quaternion extraction: cut there (see class docstring)
+            X = alg.elem(x).exp(G)
+            with MatrixCut(("Quat",)) as mc:
+                lg = X.log()
+            if len(mc.calls) != 1:
+                raise HarnessError("SO3Dcm.log: expected one SO3Quat.from_Matrix call")
+            _, A, P = mc.calls[0]
+            self.extra_sx = [P]
+            return [lg.param, A]
         return [alg.elem(x).exp(G).log().param]
 
     def _real_nocut(self, x):
@@ -123,9 +133,9 @@ class LogExp(Stubbed):
         if self.fam in ("SO2", "SE2"):
             ctx.assume(aux["th"].num_term() != 0)
         ctx.aux = aux
-        if self.fam == "SE23":
+        if self.fam == "SE23" or self.gname == "SO3Dcm":
             n = aux["n"]
-            if so3_of(self.gname) == "SO3Quat":
+            if so3_of(self.gname) in ("SO3Quat", "SO3Dcm"):
                 sg = 1 if self.variant == "+" else -1
                 P = [sg * L.c2, sg * L.s2 * n[0], sg * L.s2 * n[1], sg * L.s2 * n[2]]
                 if sg == -1:
@@ -184,18 +194,40 @@ class LogPrincipal(Stubbed):
 
     def _real(self, x):
         G = groups()[self.gname]
+        if self.gname == "SO3Dcm":
+            with MatrixCut(("Quat",)) as mc:
+                lg = G.elem(x).log()
+            if len(mc.calls) != 1:
+                raise HarnessError("SO3Dcm.log: expected one SO3Quat.from_Matrix call")
+            _, A, P = mc.calls[0]
+            self.extra_sx = [P]
+            return [lg.param, A]
+        return [G.elem(x).log().param]
+
+    def _real_nocut(self, x):
+        G = groups()[self.gname]
         return [G.elem(x).log().param]
 
     def _inputs(self, ctx):
-        g = group_angle_input(ctx, self.gname, self.variant)
+        g = group_angle_input(ctx, self.gname, "+" if self.gname == "SO3Dcm" else self.variant)
         self.lats = g.lats
         ctx.aux = g.aux
+        if self.gname == "SO3Dcm":
+            # the extracted quaternion is a unit quaternion with matrix A (C07 leaf lemma): +-(c2, s2 n)
+            a = g.aux
+            sg = 1 if self.variant == "+" else -1
+            n = a["n"]
+            P = [sg * a["c2"], sg * a["s2"] * n[0], sg * a["s2"] * n[1], sg * a["s2"] * n[2]]
+            return [g.params, P]
         return [g.params]
 
     def claims(self, outs, ins, aux):
         lg = outs[0]
         ref = log_oracle(self.fam, aux)
-        return [Claim(f"principal[{i}]", lg[i][0], ref[i]) for i in range(len(ref))]
+        cl = [Claim(f"principal[{i}]", lg[i][0], ref[i]) for i in range(len(ref))]
+        if len(outs) > 1:
+            cl += entry_claims("cut_arg", outs[1], aux["R"])
+        return cl
 
 
 class ExpLog(Stubbed):
@@ -280,7 +312,7 @@ class LogZero(Harness):
 
 
 class EulerDelegation(Harness):
-    """Euler log/exp must delegate to the DCM implementation on the converted element"""
+    """Euler log must be the DCM log of SO3Dcm.from_Euler(X) (conversions: C07; DCM log: above)"""
     n_validate = 1
 
     def __init__(self):
@@ -292,36 +324,37 @@ class EulerDelegation(Harness):
         E = L["SO3EulerB321"]
         x = ca.SX.sym("x", 3)
         rec = []
-        orig = g.SO3DcmLieGroup.from_Euler
+        o1, o2 = g.SO3DcmLieGroup.from_Euler, g.SO3DcmLieGroup.log
+        sentinel = g.so3.elem(ca.SX.sym("sentinel", 3))
 
-        def fake(self_, arg):
-            D = ca.SX.sym("D", 9)
-            rec.append((arg, D))
-            return self_.elem(D)
-        g.SO3DcmLieGroup.from_Euler = fake
+        def fake_from(self_, arg):
+            D = self_.elem(ca.SX.sym("D", 9))
+            rec.append(("from_Euler", arg, D))
+            return D
+
+        def fake_log(self_, arg):
+            rec.append(("log", arg))
+            return sentinel
+        g.SO3DcmLieGroup.from_Euler = fake_from
+        g.SO3DcmLieGroup.log = fake_log
         try:
             lg = E.elem(x).log()
         finally:
-            g.SO3DcmLieGroup.from_Euler = orig
-        if len(rec) != 1 or not ca.is_equal(rec[0][0].param, x, 2):
-            raise HarnessError("Euler log does not convert its own argument with SO3Dcm.from_Euler exactly once")
-        D = rec[0][1]
-        ref = L["SO3Dcm"].elem(D).log()
-        return ca.Function("euler_log", [x, D], [lg.param, ref.param])
+            g.SO3DcmLieGroup.from_Euler, g.SO3DcmLieGroup.log = o1, o2
+        ok = (len(rec) == 2 and rec[0][0] == "from_Euler" and ca.is_equal(rec[0][1].param, x, 2)
+              and rec[1][0] == "log" and rec[1][1] is rec[0][2] and lg is sentinel)
+        if not ok:
+            raise HarnessError("Euler log is not SO3Dcm.log(SO3Dcm.from_Euler(X))")
+        d = ca.SX.sym("d")
+        return ca.Function("euler_log", [d], [d * 1])
 
     def make_ctx(self):
         ctx = Ctx()
-        g = group_angle_input(ctx, "SO3Dcm", "+")
-        self.lats = g.lats
         ctx.aux = {}
-        return ctx, [[Val.var(f"e{i}") for i in range(3)], g.params]
-
-    def env_fix(self, env):
-        for L in self.lats:
-            L.concretize(env)
+        return ctx, [[Val.var("d")]]
 
     def claims(self, outs, ins, aux):
-        return [Claim(f"delegates[{i}]", outs[0][i][0], outs[1][i][0]) for i in range(3)]
+        return [Claim("delegates", outs[0][0][0], ins[0][0])]
 
 
 def all_harnesses(tier):
@@ -330,13 +363,15 @@ def all_harnesses(tier):
         hs.append(LogExp(g))
         hs.append(LogZero(g))
     hs.append(LogExp("SE23Quat", "-"))
+    hs.append(LogExp("SO3Dcm", "-"))
     for g in ("SO2", "SE2", "R2", "R3"):
         hs.append(ExpLogPlanar(g))
     for g in ANGLE_GROUPS:
         rep = so3_of(g)[3:]
         for v in VARIANTS[rep]:
             hs.append(LogPrincipal(g, v))
-            hs.append(ExpLog(g, v))
+            if not (rep == "Dcm" and v == "-"):
+                hs.append(ExpLog(g, v))
     hs.append(LogZero("SO3EulerB321"))
     hs.append(EulerDelegation())
     return hs
